@@ -89,3 +89,53 @@ Proof.
     exists m'. split; [exact S|]. exists h'. auto.
   - exists (ifib_new cap). split; [reflexivity | apply InvF_new].
 Qed.
+
+(** * the comparators the harness uses are total orders *)
+Lemma TO_of_sign (cmp : Z -> Z -> Z) :
+  (forall a b, Z.sgn (cmp a b) = Z.sgn (a - b)) -> TotalOrder cmp.
+Proof.
+  intros S. split; [split|].
+  - intros a b. rewrite !S. lia.
+  - intros a b c H1 H2. pose proof (S a b). pose proof (S b c). pose proof (S a c). lia.
+  - intros a b H. pose proof (S a b). lia.
+Qed.
+
+Lemma TO_of_rsign (cmp : Z -> Z -> Z) :
+  (forall a b, Z.sgn (cmp a b) = Z.sgn (b - a)) -> TotalOrder cmp.
+Proof.
+  intros S. split; [split|].
+  - intros a b. rewrite !S. lia.
+  - intros a b c H1 H2. pose proof (S a b). pose proof (S b c). pose proof (S a c). lia.
+  - intros a b H. pose proof (S a b). lia.
+Qed.
+
+Lemma cmp_min_sign a b : Z.sgn (cmp_min a b) = Z.sgn (a - b).
+Proof. unfold cmp_min. destruct (Z.compare_spec a b); lia. Qed.
+
+Lemma harness_comparators :
+  TotalOrder cmp_min /\ TotalOrder cmp_max /\ TotalOrder cmp_sub /\ TotalOrder cmp_sub3 /\ TotalOrder cmp_rsub.
+Proof.
+  repeat split; try apply to_pre.
+  all: try (apply TO_of_sign; intros a b; first [apply cmp_min_sign | unfold cmp_sub, cmp_sub3; lia]).
+  all: try (apply TO_of_rsign; intros a b; first [unfold cmp_max; apply cmp_min_sign | unfold cmp_rsub; lia]).
+Qed.
+
+(** * indexed Fibonacci heap: the full statement *)
+From Algo.C05 Require Import ProofsFibDeg.
+
+Definition R_fib_full cmp (s : state) (m : amap) : Prop :=
+  exists h, s = SFib h /\ InvF cmp h m /\ InvT h.
+
+Lemma ifib_simulates cmp : TotalOrder cmp ->
+  forall (cap : nat) (ops : list op),
+    exists outs, run cmp IFib cap ops = Ok outs /\ length outs = length ops /\
+                 valid_trace cmp (empty_map cap) (combine ops outs).
+Proof.
+  intros TO cap ops. unfold run. apply (run_from_valid cmp (R_fib_full cmp)).
+  - intros s m o (h & -> & I & T).
+    destruct (step_total_F cmp (to_pre _ TO) (cmp_eq _ TO) h m o I T) as (h' & r & E & T').
+    destruct (step_spec_F cmp (to_pre _ TO) (cmp_eq _ TO) h m o h' r I E) as (m' & S & I').
+    exists (SFib h'), r, m'. cbn [step]. rewrite E. cbn [bind].
+    split; [reflexivity|]. split; [exact S|]. exists h'. auto.
+  - exists (ifib_new cap). split; [reflexivity|]. split; [apply InvF_new | apply InvT_new].
+Qed.
